@@ -1,5 +1,5 @@
 """C12 - static strings reach the runtime character for character."""
-import re
+import json, re
 import os
 import sir
 
@@ -520,6 +520,27 @@ def check_entities(ctx):
         verdict = False
     obs.append(ob("C12.entity/named-verbatim", verdict, where, "the named-reference table is consulted with the reference as written" if verdict else "; ".join(sorted(set(folds))[:3]) if folds else "the lookup is not a `get` with the parameter itself: not decided",
                   witness=None if verdict is not False else "&Auml; decodes to the character of &auml;"))
+    # a named reference may denote TWO code points (&fjlig; &NotEqualTilde; &bne; ..: 93 rows of the table): what the decoder hands
+    # back must be able to hold them, and the table is filled with the `characters` text of each row as it stands.
+    ret = json.dumps(f.ret) if f.ret is not None else ""
+    ret_char = bool(re.search(r'"char"', ret)) and not re.search(r'"(str|String|Cow)"', ret)
+    derived = []
+    filled = False
+    for g in [h for h in tc.fns if h.body and "entities" in h.module]:
+        for n in sir.walk(g.body, into_closures=True):
+            if n.get("k") == "mcall" and sir.expr_str(sir.strip_ref(n["recv"])).endswith(".characters") and n["m"] in (
+                    "chars", "bytes", "char_indices", "get", "split_at", "trim", "trim_start", "trim_end", "first", "as_bytes", "encode_utf16"):
+                derived.append("%s reads `%s.%s()`" % (g.name, sir.expr_str(sir.strip_ref(n["recv"])), n["m"]))
+            if n.get("k") == "index" and sir.expr_str(sir.strip_ref(n.get("base") or n.get("e") or {})).endswith(".characters"):
+                derived.append("%s slices `.characters`" % g.name)
+            if n.get("k") == "mcall" and n["m"] == "insert" and len(n["args"]) == 2 and sir.expr_str(sir.strip_ref(n["args"][1])).endswith(".characters"):
+                filled = True
+    whole = False if (ret_char or derived) else (True if filled else None)
+    obs.append(ob("C12.entity/named-whole", whole, where,
+                  "the table is filled with each row's `characters` text as it stands and the decoder returns text, so two-code-point references decode whole" if whole else
+                  ("the decoder returns a single `char`: " if ret_char else "") + ("; ".join(sorted(set(derived))[:3]) if derived else "") if whole is False else
+                  "the table filler does not insert `.characters` directly: not decided",
+                  witness=None if whole is not False else "&fjlig; (U+0066 U+006A) decodes to `f` only"))
     return obs
 
 
